@@ -157,6 +157,33 @@ theorem deps_copy_new (fx : Bool) (W : World) (r : Nat) {s : Nat}
     (copy fx W r).deps (s + W.nsym) = (W.deps s).map (rhoT fx (findIn r W.trees).owned W.nsym) := by
   simp [copy, isNew_shift hm]
 
+theorem iface_copy_old (fx : Bool) (W : World) (r : Nat) {s : Nat} (h : s < W.nsym) :
+    (copy fx W r).iface s = W.iface s := by
+  simp [copy, isNew_old h]
+
+theorem access_copy_old (fx : Bool) (W : World) (r : Nat) {i : Nat} (h : i < W.nif) :
+    (copy fx W r).access i = W.access i := by
+  simp only [copy]
+  split
+  · omega
+  · rfl
+
+theorem iface_copy_new (fx : Bool) (W : World) (r : Nat) {s : Nat}
+    (hm : s ∈ (findIn r W.trees).owned) :
+    (copy fx W r).iface (s + W.nsym) =
+      if W.freshIface s then W.iface s + W.nif else W.iface s := by
+  simp [copy, isNew_shift hm]
+
+/-- the copy of a symbol has an interface with the same attributes: its own new object or the
+very object of the original -/
+theorem access_iface_copy_new (fx : Bool) (W : World) (r : Nat) {s : Nat}
+    (hm : s ∈ (findIn r W.trees).owned) (hlt : W.iface s < W.nif) :
+    (copy fx W r).access ((copy fx W r).iface (s + W.nsym)) = W.access (W.iface s) := by
+  rw [iface_copy_new fx W r hm]
+  split
+  · simp [copy]
+  · exact access_copy_old fx W r hlt
+
 /-! ## `view` depends only on the names and dependencies it reads -/
 
 theorem view_map_copy (W W' : World) (a b : Nat → Nat) (fx : Bool) (own : List Nat)
@@ -165,7 +192,8 @@ theorem view_map_copy (W W' : World) (a b : Nat → Nat) (fx : Bool) (own : List
     (h1 : ∀ s ∈ F.syms, W'.name (a s) = W.name s)
     (h2 : ∀ s ∈ F.tsyms, W'.name (b s) = W.name s)
     (h3 : ∀ s ∈ F.owned, W'.name (a s) = W.name s ∧
-                          (W'.deps (a s)).map W'.name = (W.deps s).map W.name) :
+                          (W'.deps (a s)).map W'.name = (W.deps s).map W.name ∧
+                          W'.access (W'.iface (a s)) = W.access (W.iface s)) :
     view W' (F.map (copyNode fx own no so)) = view W F := by
   induction F with
   | nil => rfl
@@ -193,11 +221,12 @@ theorem view_map_copy (W W' : World) (a b : Nat → Nat) (fx : Bool) (own : List
         apply List.map_congr_left
         intro s hs
         have := h3 s (Or.inl (by simp [NodeRec.tab, hs]))
-        simp [ha, this.1, this.2]
+        simp [ha, this.1, this.2.1, this.2.2]
 
 theorem view_congr (W W' : World) (F : Forest)
     (h1 : ∀ s ∈ F.syms ++ F.tsyms ++ F.owned, W'.name s = W.name s)
-    (h3 : ∀ s ∈ F.owned, (W'.deps s).map W'.name = (W.deps s).map W.name) :
+    (h3 : ∀ s ∈ F.owned, (W'.deps s).map W'.name = (W.deps s).map W.name ∧
+                          W'.access (W'.iface s) = W.access (W.iface s)) :
     view W' F = view W F := by
   induction F with
   | nil => rfl
@@ -235,7 +264,7 @@ theorem view_congr (W W' : World) (F : Forest)
         apply List.map_congr_left
         intro s hs
         have hm : s ∈ NodeRec.tab ⟨id, kind, sym, tsym, some l⟩ := by simp [NodeRec.tab, hs]
-        simp [h1 s (Or.inr (Or.inl hm)), h3 s (Or.inl hm)]
+        simp [h1 s (Or.inr (Or.inl hm)), (h3 s (Or.inl hm)).1, (h3 s (Or.inl hm)).2]
 
 /-! ## edits that do not address a forest leave it alone -/
 
